@@ -174,14 +174,16 @@ def random_spec(rnd, info) -> Dict[str, Any]:  # noqa: ANN001
     if k == "iteration":
         x = rnd.random()
         v = rnd.choice(its + [-1, max(its) + 7]) if x < 0.5 else rnd.sample(its + [-1, 9999], rnd.randint(1, min(3, len(its) + 2)))
+        if x > 0.92:
+            v = []                 # a computed list that came out empty selects no row
         return {"kind": k, "iterations": v}
     if k == "iteration_index":
         x = rnd.random()
         if x < 0.2:
             return {"kind": k, "first": True, "index": [0]}
-        return {"kind": k, "index": rnd.choice([0, 1, len(its) - 1, len(its), [0, 1], [1, 5]])}
+        return {"kind": k, "index": rnd.choice([0, 1, len(its) - 1, len(its), [0, 1], [1, 5], [1], [2, 3], []])}
     if k == "rank":
-        return {"kind": k, "ranks": rnd.choice([0, 1, [0, 2], [7], list(range(info["n_ranks"]))])}
+        return {"kind": k, "ranks": rnd.choice([0, 1, [0, 2], [7], list(range(info["n_ranks"])), []])}
     if k == "time":
         ends = info["ends"]
         starts = info["starts"]
